@@ -493,3 +493,7 @@ M('c20-skeleton-args-swapped', 'C20', 'svd.py', "            Y_curr, _ = matrix_
 # P-endpoints (C15): the end point appended is the one whose absence was tested
 M('c15-endpoint-wrong-end', 'C15', 'optima_func.py', "    if clip[1] < +np.inf and clip[1] not in x0:\n        x0.append(clip[1])", "    if clip[1] < +np.inf and clip[1] not in x0:\n        x0.append(clip[0])")
 T('c15-twin-endpoint-tmp', 'C15', 'optima_func.py', "    if clip[1] < +np.inf and clip[1] not in x0:\n        x0.append(clip[1])", "    hi_end = clip[1]\n    if hi_end < +np.inf and hi_end not in x0:\n        x0.append(hi_end)")
+# P-pow2 (C17): the power-of-two test is an inequality, not a one-sided comparison
+M('c17-pow2-one-sided-grid', 'C17', 'grid.py', "    if 2**q != n:\n        raise ValueError('Invalid mode size (it should be a power of two)')", "    if 2**q < n:\n        raise ValueError('Invalid mode size (it should be a power of two)')")
+M('c17-pow2-one-sided-core', 'C17', 'core.py', "    if 2**d != n:", "    if n > 2**d:")
+T('c17-twin-pow2-sides-swapped', 'C17', 'grid.py', "    if 2**q != n:\n        raise ValueError('Invalid mode size (it should be a power of two)')", "    if n != 2**q:\n        raise ValueError('Invalid mode size (it should be a power of two)')")
